@@ -351,6 +351,34 @@ class TObj(T):
         return "Obj(%s)" % getattr(self.cls, "__name__", self.cls)
 
 
+class MapCls:
+    """Pseudo-class of heap-allocated finite maps (dict / defaultdict(lambda: None)) with values of type valT.
+    Keys are enum members, ints or strings, encoded as integers."""
+
+    _cache = {}
+
+    def __new__(cls, valT):
+        tag = repr(valT)
+        if tag not in cls._cache:
+            o = object.__new__(cls)
+            o.valT = valT
+            o.tag = "".join(ch if ch.isalnum() else "_" for ch in tag)
+            o.__name__ = "map<%s>" % tag
+            cls._cache[tag] = o
+        return cls._cache[tag]
+
+
+class TMap(T):
+    """Reference to a heap map object (see MapCls)."""
+
+    def __init__(self, valT):
+        self.valT = valT
+        self.cls = MapCls(valT)
+
+    def __repr__(self):
+        return "Map[%r]" % (self.valT,)
+
+
 class TConst(T):
     def __init__(self, value):
         self.value = value
